@@ -131,6 +131,21 @@ fn main() {
     println(r, q, nan >= nan);
 }
 `,
+	// float literals in rewritten positions: whatever a literal is rewritten into denotes exactly the same number
+	"float-literals": `fn width() -> float { 23.0 }
+fn main() {
+    let f1 = 1.0; let f2 = 2.0; let f3 = 3.0; let f4 = 4.0; let f5 = 5.0; let f6 = 6.0; let f7 = 7.0; let f8 = 8.0; let f9 = 9.0; let f10 = 10.0; let f11 = 11.0; let f12 = 12.0; let f13 = 13.0; let f14 = 14.0; let f15 = 15.0; let f16 = 16.0; let f17 = 17.0; let f18 = 18.0; let f19 = 19.0; let f20 = 20.0; let f21 = 21.0; let f22 = 22.0; let f23 = 23.0; let f24 = 24.0; let f25 = 25.0; let f26 = 26.0; let f27 = 27.0; let f28 = 28.0; let f29 = 29.0; let f30 = 30.0; let f31 = 31.0; let f32 = 32.0; let f33 = 33.0; let f34 = 34.0; let f35 = 35.0; let f36 = 36.0; let f37 = 37.0; let f38 = 38.0; let f39 = 39.0; let f40 = 40.0; let f41 = 41.0; let f42 = 42.0; let f43 = 43.0; let f44 = 44.0; let f45 = 45.0; let f46 = 46.0; let f47 = 47.0; let f48 = 48.0; let f49 = 49.0; let f50 = 50.0; let f51 = 51.0; let f52 = 52.0; let f53 = 53.0; let f54 = 54.0; let f55 = 55.0; let f56 = 56.0; let f57 = 57.0; let f58 = 58.0; let f59 = 59.0;
+    println(f1); println(f2); println(f3); println(f4); println(f5); println(f6); println(f7); println(f8); println(f9); println(f10); println(f11); println(f12); println(f13); println(f14); println(f15); println(f16); println(f17); println(f18); println(f19); println(f20); println(f21); println(f22); println(f23); println(f24); println(f25); println(f26); println(f27); println(f28); println(f29); println(f30); println(f31); println(f32); println(f33); println(f34); println(f35); println(f36); println(f37); println(f38); println(f39); println(f40); println(f41); println(f42); println(f43); println(f44); println(f45); println(f46); println(f47); println(f48); println(f49); println(f50); println(f51); println(f52); println(f53); println(f54); println(f55); println(f56); println(f57); println(f58); println(f59);
+    let w = width();
+    if w <= 23.0 { println("fits"); } else { println("too wide"); }
+    if 19.0 == 19.0 && 11.0 < 11.5 { println("eq"); }
+    let big = 4711.0; let third = 0.1; let neg = 0.0 - 37.0;
+    println(big, third, neg, 1000000.0, 123456789.0, 0.5, 97.0 + 1.0, 53.0 * 2.0);
+    let k = 0.0;
+    while k < 29.0 { k += 7.0; }
+    println(k);
+}
+`,
 	"guarded": `fn find(limit: int) -> int {
     let acc = 0;
     for i in 0..20 {
